@@ -622,7 +622,7 @@ theorem insertBitmap_ok {sz cap bits : Nat} {a : Tbl} (hb : isDense c bits = fal
     dsimp only at h
     obtain ⟨r, d1, _, h2⟩ := bind_ok h
     obtain ⟨new, d2, h3, h4⟩ := bind_ok h2
-    have hnew := withCapBits_ok ok g _ _ _ _ _ h3
+    have hnew := withCapBits_ok ok g _ _ (ok.cab_lt e) _ _ _ h3
     exact rebuild_InsOK rec hrec wf hnew he hnot h4
   · by_cases hf : ∃ idx, lookfor (e / bits) a bits = .found idx
     · obtain ⟨idx, hl⟩ := hf
@@ -660,7 +660,7 @@ theorem insertBitmap_ok {sz cap bits : Nat} {a : Tbl} (hb : isDense c bits = fal
         · exact rebuild_InsOK rec hrec wf (denseWithMax_ok ok mx) he hnot hg
         · obtain ⟨r, d1, _, h2⟩ := bind_ok hg
           obtain ⟨new, d2, h3, h4⟩ := bind_ok h2
-          have hnew := withCapBits_ok ok g _ _ _ _ _ h3
+          have hnew := withCapBits_ok ok g _ _ (Nat.lt_trans wf.bits_lt Nat.lt_two_pow_self) _ _ _ h3
           exact rebuild_InsOK rec hrec wf hnew he hnot h4
 
 end monadic
